@@ -56,7 +56,13 @@ def schema_from_seed(seed):
     if tk:
         t_ref = {"mjd": round(float(g.uniform(50000, 59000)), 6), "scale": ["tcb", "utc"][tk % 2], "format": ["mjd", "jd", "isot"][tk % 3]}
     # a library drawn in single precision (prior.sample(dtype=float32)) is stored as such
-    return {"poly": poly, "noff": noff, "cols": cols, "units": units, "t_ref": t_ref, "f4": bool(g.integers(0, 5) == 0)}
+    return {"poly": poly, "noff": noff, "cols": cols, "units": units, "t_ref": t_ref,
+            # all columns double, all single, or a mixture (columns assigned one by one may differ in precision)
+            "f4": [False, False, False, True, [c for c in cols if g.random() < 0.5]][int(g.integers(0, 5))]}
+
+
+def is_f4(f4, c):
+    return (c in f4) if isinstance(f4, (list, tuple)) else bool(f4)
 
 
 def values_from_seed(seed, n, cols, f4=False):
@@ -66,7 +72,7 @@ def values_from_seed(seed, n, cols, f4=False):
         v = g.normal(size=n) * 10.0 ** g.integers(-3, 4, size=n)
         sp = g.random(n) < 0.15
         v[sp] = g.choice(SPECIAL, size=int(sp.sum()))
-        if f4:
+        if is_f4(f4, c):
             with np.errstate(over="ignore", under="ignore"):
                 v = v.astype(np.float32).astype(float)
             v[~np.isfinite(v)] = 1.0
@@ -92,7 +98,7 @@ def make_samples(schema, vals):
     s = tj.JokerSamples(poly_trend=schema["poly"], n_offsets=schema["noff"], t_ref=make_time(schema["t_ref"]))
     for c in schema["cols"]:
         un = schema["units"][c]
-        v = np.asarray(vals[c], dtype=np.float32 if schema.get("f4") else float)
+        v = np.asarray(vals[c], dtype=np.float32 if is_f4(schema.get("f4"), c) else float)
         s[c] = v * og.unit(un) if un else v
     return s
 
@@ -432,7 +438,8 @@ def machine_factory(ctx):
                     raise Violation("read_batch[%s]: wrong shape" % how, shape=out.shape, rows=len(rows), cols=len(cols))
                 for j, c in enumerate(cols):
                     want = vals[c][rows] * factor[c]
-                    ok = np.array_equal(out[:, j], want) if factor[c] == 1.0 else np.allclose(out[:, j], want, rtol=rt, atol=0)
+                    rt_c = 1e-6 if is_f4(schema.get("f4"), c) else 1e-14
+                    ok = np.array_equal(out[:, j], want) if factor[c] == 1.0 else np.allclose(out[:, j], want, rtol=rt_c, atol=0)
                     if not ok:
                         raise Violation("read_batch[%s] did not return the requested rows of column %s (in the requested "
                                         "order and units)" % (how, c), rows=rows[:10], got=out[:10, j], want=want[:10])
